@@ -461,14 +461,84 @@ def is_mutex_guard_ty(t):
     return t["head"].endswith("lock_api::MutexGuard") or t["head"].endswith("MutexGuard")
 
 
+def _direct_lock(body, c):
+    return bool(c.callee and c.is_("lock_api::Mutex::lock", "Mutex::lock") and c.dst_local() is not None
+                and is_mutex_guard_ty(body.ty(c.dst_local())))
+
+
+def lock_wrappers(facts):
+    """{body id: (k, fields)}: crate functions that return, on every path, the MutexGuard obtained by locking a mutex reached from their
+    k-th argument (directly or through another wrapper).  A call of such a function acquires that lock in the caller: the wrapper is
+    summarised as an acquire and has no lock region of its own (Min et al.: a wrapper 'acquires' when all its paths return with the lock held)."""
+    w = getattr(facts, "_lock_wrappers", None)
+    if w is not None:
+        return w
+    w = {}
+    cands = [b for b in facts.bodies if b.locals and is_mutex_guard_ty(b.ty(0))]
+    changed = True
+    while changed:
+        changed = False
+        for b in cands:
+            if b.id in w:
+                continue
+            fl = flow(b)
+            roots, _ = fl.roots(0)
+            ks, fields, ok = set(), set(), bool(roots)
+            for r in roots:
+                if r[0] != "call":
+                    ok = False
+                    break
+                c = b.call_at(r[1])
+                if _direct_lock(b, c):
+                    rl, fs = c.arg_local(0), None
+                elif c.resolved in w:
+                    kk, fs = w[c.resolved]
+                    rl = c.arg_local(kk)
+                else:
+                    ok = False
+                    break
+                if rl is None:
+                    ok = False
+                    break
+                if fs is None:
+                    fs = fl.field_of_ref(rl)
+                rr, _ = fl.roots(rl)
+                if not rr or any(x[0] != "arg" for x in rr):
+                    ok = False
+                    break
+                ks |= {x[1] for x in rr}
+                fields |= set(fs)
+            if ok and len(ks) == 1:
+                k = next(iter(ks))
+                w[b.id] = (k - 1 if k >= 1 else k, frozenset(fields))
+                changed = True
+    facts._lock_wrappers = w
+    return w
+
+
 def lock_calls(body):
-    """bin-lock acquires: calls to lock_api::Mutex::lock (resolved), with receiver field info"""
+    """bin-lock acquires: calls to lock_api::Mutex::lock (resolved) or to a crate function summarised as a lock wrapper, with receiver
+    field info.  Inside a wrapper the returned guard's acquire is not a region of that body."""
     out = []
+    w = lock_wrappers(body.facts)
+    if body.id in w:
+        return out
     for c in body.calls:
-        if c.callee and c.is_("lock_api::Mutex::lock", "Mutex::lock") and c.dst_local() is not None:
-            if is_mutex_guard_ty(body.ty(c.dst_local())):
-                out.append(c)
+        if _direct_lock(body, c):
+            out.append(c)
+        elif c.resolved in w and c.dst_local() is not None and is_mutex_guard_ty(body.ty(c.dst_local())):
+            out.append(c)
     return out
+
+
+def lock_receiver(body, c):
+    """(local holding the reference the lock is reached from, {(adt, field)} of the mutex) for an acquire returned by lock_calls"""
+    w = lock_wrappers(body.facts)
+    if c.resolved in w and not _direct_lock(body, c):
+        k, fs = w[c.resolved]
+        return c.arg_local(k), set(fs)
+    l = c.arg_local(0)
+    return l, (flow(body).field_of_ref(l) if l is not None else set())
 
 
 class Region:
@@ -537,8 +607,10 @@ class Region:
 
     def receiver_fields(self):
         """(adt, field) of the mutex this region locks, e.g. ('node::Node','lock')"""
-        l = self.call.arg_local(0)
-        return flow(self.body).field_of_ref(l) if l is not None else set()
+        return lock_receiver(self.body, self.call)[1]
+
+    def recv_local(self):
+        return lock_receiver(self.body, self.call)[0]
 
 
 def regions(body):
